@@ -566,6 +566,75 @@ func helperAlwaysOrBlocked(p *Prog, in ssa.Instruction, pred func(ssa.Instructio
 	}, blocked) == nil
 }
 
+// feasiblePathAvoiding reports whether some path from the function's entry to target crosses no edge closed by
+// `closed`, where a path may not take contradictory outcomes of one and the same SSA condition value (the same boolean
+// tested by two ifs: `ok := …; if ok && bad { return err }; if ok { return nil }`). A small path-sensitive search.
+func feasiblePathAvoiding(fl *Flow, target ssa.Instruction, closed func([]Fact) bool) bool {
+	type state struct {
+		b   *ssa.BasicBlock
+		key string
+	}
+	seen := map[state]bool{}
+	steps := 0
+	var rec func(b *ssa.BasicBlock, asg map[ssa.Value]bool) bool
+	rec = func(b *ssa.BasicBlock, asg map[ssa.Value]bool) bool {
+		steps++
+		if steps > 20000 {
+			return true // give up: treat as open (the rule then reports instead of passing silently)
+		}
+		keys := make([]string, 0, len(asg))
+		for v, t := range asg {
+			keys = append(keys, v.Name()+map[bool]string{true: "+", false: "-"}[t])
+		}
+		sort.Strings(keys)
+		st := state{b, strings.Join(keys, ",")}
+		if seen[st] {
+			return false
+		}
+		seen[st] = true
+		if b == target.Block() {
+			return true
+		}
+		iff, isIf := b.Instrs[len(b.Instrs)-1].(*ssa.If)
+		for i, s := range b.Succs {
+			next := asg
+			if isIf && len(b.Succs) == 2 {
+				cond, truth := iff.Cond, i == 0
+				for {
+					u, ok := cond.(*ssa.UnOp)
+					if !ok || u.Op != token.NOT {
+						break
+					}
+					cond, truth = u.X, !truth
+				}
+				if prev, known := asg[cond]; known && prev != truth {
+					continue // contradicts an earlier test of the same value
+				}
+				if _, known := asg[cond]; !known {
+					next = make(map[ssa.Value]bool, len(asg)+1)
+					for k, v := range asg {
+						next[k] = v
+					}
+					next[cond] = truth
+				}
+				var fs []Fact
+				fl.decompose(iff.Cond, i == 0, &fs)
+				if closed(fs) {
+					continue
+				}
+			}
+			if rec(s, next) {
+				return true
+			}
+		}
+		return false
+	}
+	if len(fl.Fn.Blocks) == 0 {
+		return false
+	}
+	return rec(fl.Fn.Blocks[0], map[ssa.Value]bool{})
+}
+
 // cfgSearchPlain: cfgSearch from the start of a block without the helper expansions (used by them).
 func cfgSearchPlain(fl *Flow, b *ssa.BasicBlock, target, avoid func(ssa.Instruction) bool, blocked func([]Fact) bool) ssa.Instruction {
 	seen := map[*ssa.BasicBlock]bool{}
